@@ -469,21 +469,24 @@ class Spec:
                     bad(what, exp, obs)
                 if V:
                     return V, None, label
-                # black-box probe on a replayed twin: add fresh items, read every position back
+                # probe on a replayed twin: two fresh items are added.  Where the internal structures are visible
+                # their consistency is checked again (a sound state must stay sound under add; readers are not
+                # involved, a broken reader is the read battery's business); otherwise every position is read back.
                 t, _ = self.build(hist)
                 t, _, _, _ = self.apply_both(t, L, op)
                 want = list(L2) + list(PROBES)
                 try:
                     for p in PROBES:
                         t.add(p)
-                    got = [t[i] for i in range(len(want))]
-                    idx = [t.index(x) for x in want]
+                    if internals(t) is not None:
+                        for what, exp, obs in check_internals(t, want):
+                            bad('probe:add-fresh-items:' + what, exp, obs)
+                    else:
+                        got = [t[i] for i in range(len(want))]
+                        if got != want:
+                            bad('probe:positions-after-add', want, got)
                 except Exception as e:
-                    got, idx = 'raised ' + type(e).__name__, None
-                if got != want:
-                    bad('probe:positions-after-add', want, got)
-                elif idx != list(range(len(want))):
-                    bad('probe:index-after-add', list(range(len(want))), idx)
+                    bad('probe:add-fresh-items', want, 'raised ' + type(e).__name__)
                 if V:
                     return V, None, label
                 return V, canon(s2), label
